@@ -16,7 +16,10 @@ RULE = ("C05's valid problems (binary and ternary fluents with repeated argument
         ">= 1 goal condition")
 DECISIVE = ["compared:roundtrip"]
 DECISIVE_EACH = ["compared:roundtrip", "compared:exported-text"]
-ASSUMPTIONS = ["generator AST = ground truth", "the exported text is judged through the reference reader, never by string comparison"]
+ASSUMPTIONS = ["generator AST = ground truth", "the exported text is judged through the reference reader, never by string comparison",
+               "numeric goal constants are representable at the library's configured print precision (NUMERIC_PRECISION, 4 decimals "
+               "by default): goals are printed with to_pddl(), whose precision is a stated setting (C12: 'up to the print precision'); "
+               "initial fluent values carry no such setting and must survive exactly"]
 SHARDS = {"quick": 16, "thorough": 16}
 
 
